@@ -165,7 +165,7 @@ def _plan(draw, max_rows):
     draw(gen.decorate(fp))
     plan = {"frame": fp, "op": op}
     # how the receiver came to be, a module-level default, and whether the call is made twice
-    plan["receiver"] = draw(st.sampled_from(["built", "built", "shallow_copy", "deep_copy", "view_rows", "derived", "sorted"]))
+    plan["receiver"] = draw(st.sampled_from(["built", "built", "shallow_copy", "deep_copy", "view_rows", "derived", "sorted", "grouped"]))
     if plan["receiver"] == "sorted":
         # the receiver is the direct result of a sort by one or two columns (whatever the sort leaves on its result)
         k = len(fp["cols"])
@@ -290,6 +290,12 @@ def check(plan, ctx):
             else:
                 how = "built"                                  # sort itself is off: C03's business
         except Exception:
+            how = "built"
+    if how == "grouped":
+        # the frame object was marked by group_by earlier (say for an aggregate): row subsetting is about rows, not groups
+        if fp["cols"]:
+            data.group_by(fp["cols"][0]["name"])
+        else:
             how = "built"
     if "peek_rows" in plan:
         di.DEFAULT_PEEK_ROWS = plan["peek_rows"]
